@@ -51,6 +51,18 @@ func ssCase(c *mon.Case, r *mon.Run, dir string, f fault, attack string, seed ui
 	var kB [ss.SharedSecretLn]byte
 	io.ReadFull(o4.RandReader{R: rng}, kB[:])
 	srv := ss.NewServer(kB, o4.RandReader{R: rng})
+	// "ticket-handshake" is not an attack: the client finds a session ticket
+	// for the bridge in its store and uses the ticket handshake (no response
+	// from the server) instead of UniformDH
+	useTicket := attack == "ticket-handshake"
+	if useTicket {
+		attack = ""
+		body, _ := srv.IssueTicket()
+		if err := scramblesuit.VerifStoreTicket(dir, &net.TCPAddr{IP: net.ParseIP("192.0.2.2"), Port: 443}, body); err != nil {
+			c.Violation("setup/ss-ticket-store", err.Error(), nil)
+			return
+		}
+	}
 	cw, sw := memwire.Pair(memwire.Options{})
 	s2c := sw.Out()
 	switch f.kind {
@@ -81,8 +93,17 @@ func ssCase(c *mon.Case, r *mon.Run, dir string, f fault, attack string, seed ui
 			return
 		}
 		resp, sess := srv.Respond(h, rng.IntN(ss.MaxUDHPad+1), nil)
-		if _, err := sw.Write(resp); err != nil {
-			return
+		if useTicket {
+			if h.Type == "ticket" {
+				r.Count("ss_ticket_handshakes", 1)
+			} else {
+				c.Violation("setup/ss-ticket-not-used", "the stored ticket was not used: hello type "+h.Type, nil)
+			}
+		}
+		if len(resp) > 0 {
+			if _, err := sw.Write(resp); err != nil {
+				return
+			}
 		}
 		sw.Write(sess.Enc.Packet(1, st.Bytes(0, 300), 10))
 		mu.Lock()
@@ -185,6 +206,10 @@ func ssCase(c *mon.Case, r *mon.Run, dir string, f fault, attack string, seed ui
 	if name == "" {
 		name = f.kind
 	}
+	if useTicket {
+		name = "ticket-handshake/" + name
+		wit["handshake"] = "session ticket"
+	}
 	if !cs.returned {
 		c.Violation("wedged/scramblesuit/client-Dial/"+name, "ScrambleSuit Dial has not returned 200 virtual seconds after the start: no deadline ended it", wit)
 	}
@@ -223,7 +248,7 @@ func ssCase(c *mon.Case, r *mon.Run, dir string, f fault, attack string, seed ui
 			ended, e2 := cl.appEnded, cl.appErr
 			mu.Unlock()
 			if ended {
-				c.Violation("stale-timer/scramblesuit/client", fmt.Sprintf("an established idle connection failed: %v", e2), wit)
+				c.Violation("stale-timer/scramblesuit/client/"+name, fmt.Sprintf("an established idle connection failed: %v", e2), wit)
 			} else {
 				r.Count("established_idle_survived_10min", 1)
 			}
@@ -239,7 +264,7 @@ func ssCase(c *mon.Case, r *mon.Run, dir string, f fault, attack string, seed ui
 				}
 			}
 			if !armed || !cleared {
-				c.Violation("deadline/ledger/scramblesuit", fmt.Sprintf("handshake deadline armed=%v removed=%v", armed, cleared), wit)
+				c.Violation("deadline/ledger/scramblesuit/"+name, fmt.Sprintf("handshake deadline armed=%v removed=%v", armed, cleared), wit)
 			} else {
 				r.Count("deadline_ledger_ok", 1)
 			}
@@ -247,7 +272,7 @@ func ssCase(c *mon.Case, r *mon.Run, dir string, f fault, attack string, seed ui
 	} else if cs.returned {
 		r.Count("handshake_failed_cleanly_scramblesuit", 1)
 	}
-	r.Distinct("nontrivial", fmt.Sprintf("ss/%s/%s", f, attack))
+	r.Distinct("nontrivial", fmt.Sprintf("ss/%s/%s/%v", f, attack, useTicket))
 	cw.Close()
 	sw.Close()
 	wg.Wait()
